@@ -3,7 +3,6 @@ package c30
 import (
 	"context"
 	"fmt"
-	"os"
 	"sort"
 	"strings"
 	"testing"
@@ -945,5 +944,3 @@ func dumpModel(m *model, now int64) string {
 	}
 	return sb.String()
 }
-
-var _ = os.Getenv
